@@ -350,13 +350,22 @@ def kexactHessPar (twod : Bool) (gxyz : List (V3 α)) (w : World Rank) (s : Worl
 def toMat (m : M6 α) : Matrix.M6 α := ⟨m.m0, m.m1, m.m2, m.m3, m.m4, m.m5⟩
 def ofMat (m : Matrix.M6 α) : M6 α := ⟨m.m11, m.m12, m.m13, m.m22, m.m23, m.m33⟩
 
+/-- the first error of the ranks, else every rank's result -/
+def sequenceE {ε β : Type} : List (Except ε β) → Except ε (List β)
+  | [] => .ok []
+  | .error e :: _ => .error e
+  | .ok x :: rest =>
+    match sequenceE rest with
+    | .error e => .error e
+    | .ok xs => .ok (x :: xs)
+
 /-- `ref_recon_roundoff_limit`: the serial kernel on every rank's stored mesh (radius = shortest LOCAL edge at the
     vertex, every stored vertex processed), then the refresh.  `error`: some rank fails the `RAS` / `diag_m` -/
 def roundoffLimitPar (gxyz : List (V3 α)) (w : World Rank) (recon : World (List (M6 α))) :
     Except Matrix.Err (Option (World (List (M6 α)))) :=
   let loc := List.zipWith (fun (r : Rank) (m : List (M6 α)) =>
     Metric.roundoffLimit (r.xyz gxyz) r.cells (m.map toMat)) w recon
-  match loc.mapM id with
+  match sequenceE loc with
   | .error e => .error e
   | .ok ms => .ok (ghostM6 w (ms.map (·.map ofMat)))
 
